@@ -241,6 +241,9 @@ func ccittClasses(s fg.Spec, nrows int) []string {
 	add(s.RowBits() >= 2560, "columns>=2560")
 	add(s.Damaged > 0, "DamagedRowsBeforeError")
 	add(nrows == 0, "zero-rows")
+	add(nrows >= 1200 && s.RowBits() >= 1000, "page-sized")
+	add(nrows >= 1200 && s.RowBits() >= 1000 && s.K == 0, "page-sized-K=0")
+	add(nrows >= 1200 && s.RowBits() >= 1000 && s.K != 0, "page-sized-K!=0")
 	return cls
 }
 
